@@ -390,7 +390,7 @@ class Check:
                 res.coverage[m.group(1)] = res.coverage.get(m.group(1), 0) + int(m.group(4))
         return res
 
-    def oracle(self, module, trace, name, sigfn, timeout=1800, xmx="16g", xss="64m", max_report=300, cfg=None, workers=16):
+    def oracle(self, module, trace, name, sigfn, timeout=1800, xmx="16g", xss="64m", max_report=300, cfg=None, workers=16, tags=None):
         """E5 batch oracle: TLC evaluates every event of `trace` with `module`; lines printed as
         <<"MISMATCH", l>> become violations (signature by sigfn(event)); <<"DRIFT", l>> is model drift only.
         returns (number of events, mismatching lines, drift lines)"""
@@ -398,8 +398,15 @@ class Check:
         bad = sorted(set(t[1] for t in r.tuples("MISMATCH")))
         drift = sorted(set(t[1] for t in r.tuples("DRIFT")))
         n = max(0, r.distinct - 65)   # minus the root and the 64 block states
-        if bad or drift:
+        tagged = {}
+        for tag in (tags or {}):
+            tagged[tag] = sorted(set(t[1] for t in r.tuples(tag)))
+        if bad or drift or any(tagged.values()):
             evs = read_ndjson(trace)
+            for tag, lines in tagged.items():      # violations of a class the oracle itself identifies (e.g. a known finding)
+                for l in lines[:max_report]:
+                    self.violation(tags[tag](evs[l - 1]), {"kind": "oracle", "oracle": module, "class": tag, "event": evs[l - 1], "line": l})
+                bad = bad  # tagged lines are counted separately
             for l in bad[:max_report]:
                 e = evs[l - 1]
                 self.violation(sigfn(e), {"kind": "oracle", "oracle": module, "event": e, "line": l})
